@@ -4,6 +4,7 @@ judged against theory (monotone descent, O(1/k) and O(1/k^2) rates, saddle
 points are fixed points, Fejer monotonicity in the M-norm, bounded
 convergence) using a KKT-certified reference minimiser."""
 import copy
+import random
 
 import numpy as np
 
@@ -54,7 +55,7 @@ class PGWorld(World):
         rng = mk_rng(self.name, seed)
         g = common.np_gen(rng)
         k = {}
-        k["alg"] = rng.choice(["GM", "PDHG", "PDHG"])
+        k["alg"] = rng.choice(["GM", "GM", "PDHG", "PDHG", "PDHG"])
         cplx = rng.random() < 0.5
         k["complex"] = cplx
         gk = rng.choice(["none", "l1", "l1", "l2", "box"])
@@ -79,7 +80,19 @@ class PGWorld(World):
             # denoising-type problem: A = I, handed over as an operator that returns its input
             k["family"] = "identity"
             k["Aalias"] = rng.choice(["linop_identity", "lambda", "reshape"])
-        if k["family"] == "identity":
+        if k["alg"] == "GM" and rng.random() < 0.35:
+            # singular values spread log-uniformly over three decades: the regime in which
+            # the O(1/k) and O(1/k^2) bounds are closest to being attained
+            k["family"] = "spectrum"
+        if k["family"] == "spectrum":
+            n = max(n, 2)
+            m = rng.randint(n, 8)
+            q1 = common.rand_unitary(g, m, cplx)[:, :n]
+            q2 = common.rand_unitary(g, n, cplx)
+            sv = [10 ** rng.uniform(-3, 0) for _ in range(n)]
+            sv[0] = 1.0
+            M = (q1 * np.asarray(sv)) @ q2.conj().T
+        elif k["family"] == "identity":
             m = n
             M = np.eye(n) + (0j if cplx else 0)
         elif k["family"] in ("benign", "spread"):
@@ -120,7 +133,7 @@ class PGWorld(World):
         if k["alg"] == "GM":
             k["c"] = rng.choice([1.0, 1.0, 0.9, 0.5, 0.1])
             k["accelerate"] = rng.random() < 0.5
-            K = rng.choice([5, 12, 30, 60, 120, 200])
+            K = rng.choice([5, 12, 30, 60, 120, 200]) if k["family"] != "spectrum" else rng.choice([60, 120, 200, 400])
         else:
             k["steps"] = rng.choice(["scalar", "scalar", "array", "array", "tau_scalar_sigma_array", "tau_array_sigma_scalar"])
             k["sigma_rel"] = float(10 ** rng.uniform(-1, 1))
@@ -139,6 +152,10 @@ class PGWorld(World):
         # the caller may drive the object for more updates than max_iter (a plain
         # for-loop over update()): the trajectory must not depend on max_iter
         plan["max_iter"] = rng.choice([K + 5, K + 5, K + 5, max(1, K // 2), min(K, 3), K])
+        # boundary budgets (own generator: the other sessions' plans stay what they were)
+        r_mi = random.Random("pg-maxiter:%d" % seed)
+        if r_mi.random() < 0.1:
+            plan["max_iter"] = r_mi.choice([0, 1, 1, 2])
         sched = []
         dense_queries = K <= 60
         for i in range(K):
